@@ -56,13 +56,15 @@ def run_falsifier(pid, ob, fn_result, seed, budget=None):
            'contract': export_contract(fn_result['key'])}
     if budget:
         req['budget'] = budget
+    tmo = int(os.environ.get('PYVC_FALSIFIER_TIMEOUT', '240'))
+    req['time_budget_s'] = int(tmo * 0.6)
     ck = (fn_result['key'], budget)
     if ck in _FALS_CACHE:
         return _FALS_CACHE[ck]
 
     try:
         p = subprocess.run([VENV_PY, script], input=json.dumps(req), capture_output=True, text=True,
-                           timeout=int(os.environ.get('PYVC_FALSIFIER_TIMEOUT', '240')), cwd=VERIF, env={**os.environ, 'PYTHONPATH': os.environ.get('PYVC_REPO', '/repo')})
+                           timeout=tmo, cwd=VERIF, env={**os.environ, 'PYTHONPATH': os.environ.get('PYVC_REPO', '/repo')})
         line = [ln for ln in p.stdout.splitlines() if ln.startswith('{')]
         if not line:
             return {'reproduced': None, 'detail': (p.stderr or p.stdout)[-2000:]}
@@ -181,6 +183,29 @@ def finish(pid, tier, results, wall, verbose=True):
                 violations.append((ob, rpath, ' no-failing-input-found'))
             else:
                 undecided.append((ob['name'], f"{ob['status']} ({ob['reason']}); not in lock file"))
+    # ---- thorough tier: run-time validation of every contract against the real function (all clauses the
+    # run-time evaluator supports, generated inputs): a disagreement is either a defect or a wrong contract, and in
+    # both cases must not go unnoticed
+    validation = []
+    if tier == 'thorough' and not errors:
+        budget = int(os.environ.get('PYVC_VALIDATION_BUDGET', '150'))
+        for r in results:
+            if r['status'] not in ('ok', 'unsupported') or r.get('bounded_clauses'):
+                continue
+            ob = {'name': r['key'] + '/runtime-validation', 'text': 'run-time contract check of the real function', 'backend': 'falsifier'}
+            fr = run_falsifier(pid, ob, r, seed, budget=budget)
+            rec = {'function': r['key'], 'cases': (fr or {}).get('admissible', 0), 'result': 'held'}
+            if fr and fr.get('reproduced'):
+                rec['result'] = 'violated'
+                os.makedirs(os.path.join(VERIF, 'replays', pid), exist_ok=True)
+                rpath = os.path.join('replays', pid, r['key'].replace('/', '.').replace(':', '_') + '.validation.json')
+                with open(os.path.join(VERIF, rpath), 'w') as f:
+                    json.dump({'property': pid, 'obligation': r['key'] + '/' + fr.get('clause', '?'), 'function': r['key'],
+                               'source_sha256': r.get('sha256'), 'falsifier': fr, 'reproduced': True}, f, indent=1)
+                violations.append(({'name': r['key'] + '/' + fr.get('clause', '?'), 'text': fr.get('detail', '')[:300]}, rpath, ''))
+            elif not fr or fr.get('reproduced') is None:
+                rec['result'] = 'not-run: ' + str((fr or {}).get('detail', (fr or {}).get('error', '')))[:160]
+            validation.append(rec)
     # ordinal-named obligations (noexc:E#k, pre:call:f#k:clause) come and go with harmless edits: only the
     # obligations named after a contract clause, a loop invariant, a frame or a lemma must still be generated
     missing = sorted(m for m in locked - generated if not _ORD.search(m)) if not errors else []
@@ -222,6 +247,7 @@ def finish(pid, tier, results, wall, verbose=True):
             'undecided': [list(u) for u in undecided],
             'known_findings_reproduced': [k['id'] for k, _ in known_hits],
             'bounded': bounded_recs,
+            'runtime_validation': validation,
             'samples': samples or [{'note': 'no obligations generated'}],
             'obligation_list': [{'name': o['name'], 'status': o['status'], 'backend': o['backend'],
                                  'time_s': o['time_s'], 'float_mode': o.get('float_mode')} for o in obligations],
